@@ -36,6 +36,13 @@ theorem argOKB_sound (a : Arg) (h : argOKB a = true) : argOK a := by
     refine ⟨by intro e; subst e; simp at h, fun p hp => ?_⟩
     have := h.2 p hp
     exact ⟨operandOKB_sound _ this.1, identOKB_sound _ this.2⟩
+  | nums ks =>
+    simp only [argOKB, List.all_eq_true, decide_eq_true_eq] at h
+    exact h
+  | align a =>
+    cases a with
+    | none => intro n hn; simp at hn
+    | some n => intro m hm; simp at hm; subst hm; simpa [argOKB] using h
 
 theorem matchesB_sound : ∀ (fs : List Slot) (as : List Arg), matchesB fs as = true → Matches fs as
   | [], [], _ => .nil
@@ -65,6 +72,14 @@ theorem matchesB_sound : ∀ (fs : List Slot) (as : List Arg), matchesB fs as = 
     cases as with
     | nil => simp [matchesB] at h
     | cons a as => cases a <;> first | exact .phis _ (matchesB_sound fs as (by simpa [matchesB] using h)) | simp [matchesB] at h
+  | .nums :: fs, as, h => by
+    cases as with
+    | nil => simp [matchesB] at h
+    | cons a as => cases a <;> first | exact .nums _ (matchesB_sound fs as (by simpa [matchesB] using h)) | simp [matchesB] at h
+  | .align :: fs, as, h => by
+    cases as with
+    | nil => simp [matchesB] at h
+    | cons a as => cases a <;> first | exact .align _ (matchesB_sound fs as (by simpa [matchesB] using h)) | simp [matchesB] at h
 
 theorem instOKB_sound (i : Inst) (h : instOKB i = true) : instOK i := by
   unfold instOKB at h
@@ -112,6 +127,8 @@ theorem retypeArg_id (e : List (Ident × Ty)) (a : Arg) (h : consistentArg e a =
   | val o => rfl
   | lab i => rfl
   | phis incs => rfl
+  | nums ks => rfl
+  | align a => rfl
   | tyval t o =>
     cases o with
     | const c => rfl
